@@ -1365,10 +1365,22 @@ impl<'a, 't, 'g> VGen<'a, 't, 'g> {
         // sometimes two; a task is local to its resource
         let nres = if self.t.ratio(1, 3) && self.g.want("SEVERAL_CONFIGURATIONS") { 2 } else { 1 };
         let mut task_names: Vec<Vec<String>> = vec![];
-        for _ in 0..nres {
+        // names that are local to a configuration (resource, resource type, task, program instance)
+        // may be the same in both configurations: one CPU layout copied for a second line
+        let reuse = nres == 2 && self.t.ratio(1, 2) && self.g.want("CONFIGURATION_LOCAL_NAMES_REUSED");
+        for r in 0..nres {
             let nt = self.t.count(0, 2);
-            task_names.push((0..nt).map(|_| self.fresh()).collect());
+            let mut v: Vec<String> = vec![];
+            for k in 0..nt {
+                let first: Option<String> = if r == 1 && reuse { task_names[0].get(k).cloned() } else { None };
+                match first {
+                    Some(f) if self.t.ratio(2, 3) => v.push(f),
+                    _ => v.push(self.fresh()),
+                }
+            }
+            task_names.push(v);
         }
+        let mut first_names: Option<(String, String, Vec<String>)> = None;
         for r in 0..nres {
             self.cur_decl = out.len();
             let tasks: Vec<TaskConfiguration> = task_names[r]
@@ -1386,13 +1398,19 @@ impl<'a, 't, 'g> VGen<'a, 't, 'g> {
                 .collect();
             let mut programs = vec![];
             let np = 1 + self.t.count(0, 1);
-            for _ in 0..np {
-                let pname = self.fresh();
+            let mut pnames_here: Vec<String> = vec![];
+            for pk in 0..np {
+                let reused: Option<String> = if r == 1 && reuse { first_names.as_ref().and_then(|f| f.2.get(pk).cloned()) } else { None };
+                let pname = match reused {
+                    Some(n) => n,
+                    None => self.fresh(),
+                };
+                pnames_here.push(pname.clone());
                 let ty = if self.progs.is_empty() { self.fresh() } else { self.progs[self.t.below(self.progs.len())].clone() };
                 let mut task_name = if !tasks.is_empty() && self.t.ratio(2, 3) { Some(tasks[self.t.below(tasks.len())].name.clone()) } else { None };
                 if self.site(FaultKind::TaskUndefined) {
                     // a task that exists nowhere - or (same rule) a task of the *other* resource
-                    let foreign: Vec<String> = task_names.iter().enumerate().filter(|(k, _)| *k != r).flat_map(|(_, v)| v.iter().cloned()).collect();
+                    let foreign: Vec<String> = task_names.iter().enumerate().filter(|(k, _)| *k != r).flat_map(|(_, v)| v.iter().cloned()).filter(|n| !task_names[r].contains(n)).collect();
                     if !foreign.is_empty() && self.t_free_flag() {
                         let f = foreign[self.sites.iter().sum::<usize>() % foreign.len()].clone();
                         self.set_marker(&f);
@@ -1408,8 +1426,13 @@ impl<'a, 't, 'g> VGen<'a, 't, 'g> {
                 }
                 programs.push(ProgramConfiguration { name: id(&pname), storage: None, task_name, type_name: id(&ty), fb_tasks: vec![], sources: vec![], sinks: vec![] });
             }
-            let rname = self.fresh();
-            let ron = self.fresh();
+            let (rname, ron) = match (&first_names, r == 1 && reuse) {
+                (Some(f), true) => (f.0.clone(), f.1.clone()),
+                _ => (self.fresh(), self.fresh()),
+            };
+            if r == 0 {
+                first_names = Some((rname.clone(), ron.clone(), pnames_here.clone()));
+            }
             let cname = if r == 0 { name.clone() } else { self.fresh() };
             out.push(LibraryElementKind::ConfigurationDeclaration(ConfigurationDeclaration {
                 name: id(&cname),
